@@ -309,6 +309,11 @@ func (fr *Frame) load(l *Loc) *Val {
 		vc.abstracted("array value load " + l.typ.String())
 		return fr.havocVal(l.typ, "arrval")
 	}
+	if l.kind == locGlobal && strings.HasPrefix(l.root, "G$Err") && len(l.path) == 0 && sortOf(l.typ) == sIfc {
+		// package-level error values: immutable, non-nil, pairwise distinct
+		vc.assumed["package-level Err* variables are never reassigned, non-nil and pairwise distinct"] = true
+		return &Val{t: mkIfc("1000000", intLit(int64(1000000+fr.eng.strID(l.root)))), sort: sIfc, typ: l.typ}
+	}
 	name := vc.registerHeap(l)
 	h := vc.heapGet(fr.st, name)
 	var t string
